@@ -237,6 +237,12 @@ class QuicSession:
             logging.warning(f"Could not decrypt Quic Packet: {quic_packet.dcid}")
 
     def packet_isserver(self, packet, dcid):
+        # on the path the session was first seen on, the sender is known by its address;
+        # connection IDs (which both endpoints may happen to choose alike) only decide for other paths
+        if packet.ip_src == self.client_ip and packet.sport == self.client_port:
+            return False
+        elif packet.ip_src == self.server_ip and packet.sport == self.server_port:
+            return True
         if dcid in self.server_cids and dcid not in self.client_cids:
             return False
         elif dcid in self.client_cids and dcid not in self.server_cids:
